@@ -705,6 +705,37 @@ def _enum_from_json(enum_class: Type[Enum], value: Union[str, int]) -> Enum:
     return enum_class.try_value(value)
 
 
+def _scalar_to_json(proto_type: str, value: Any, enum_class: Any = None) -> Any:
+    """The proto3 JSON form of one scalar (used for wrapper and map values)."""
+    if proto_type in INT_64_TYPES:
+        return str(value)
+    if proto_type == TYPE_BYTES:
+        return b64encode(value).decode("utf8")
+    if proto_type in (TYPE_FLOAT, TYPE_DOUBLE):
+        return _dump_float(value)
+    if proto_type == TYPE_ENUM and enum_class is not None:
+        return _enum_to_json(enum_class, value)
+    return value
+
+
+def _scalar_from_json(proto_type: str, value: Any, enum_class: Any = None) -> Any:
+    """Inverse of :func:`_scalar_to_json`; also converts the string keys of a JSON
+    object back to the key type of the map."""
+    if proto_type == TYPE_BOOL:
+        if isinstance(value, str):
+            return value == "true"
+        return value
+    if proto_type in WIRE_VARINT_TYPES + WIRE_FIXED_32_TYPES + WIRE_FIXED_64_TYPES:
+        if proto_type in (TYPE_FLOAT, TYPE_DOUBLE):
+            return _parse_float(value)
+        if proto_type == TYPE_ENUM:
+            return _enum_from_json(enum_class, value) if enum_class else value
+        return int(value)
+    if proto_type == TYPE_BYTES:
+        return b64decode(value)
+    return value
+
+
 def _values_equal(a: Any, b: Any) -> bool:
     """Field value equality. We consider two nan values to be the same for the
     purposes of comparing messages (otherwise a message is not equal to itself),
@@ -1553,7 +1584,11 @@ class Message(ABC):
                         output[cased_name] = _Duration.delta_to_json(value)
                 elif meta.wraps:
                     if value is not None or include_default_values:
-                        output[cased_name] = value
+                        output[cased_name] = (
+                            value
+                            if value is None
+                            else _scalar_to_json(meta.wraps, value)
+                        )
                 elif field_is_repeated:
                     # Convert each item.
                     cls = self._betterproto.cls_by_field[field_name]
@@ -1580,9 +1615,15 @@ class Message(ABC):
                     output[cased_name] = value.to_dict(casing, include_default_values)
             elif meta.proto_type == TYPE_MAP:
                 output_map = {**value}
+                assert meta.map_types
+                value_cls = self._betterproto.cls_by_field[f"{field_name}.value"]
                 for k in value:
                     if hasattr(value[k], "to_dict"):
                         output_map[k] = value[k].to_dict(casing, include_default_values)
+                    else:
+                        output_map[k] = _scalar_to_json(
+                            meta.map_types[1], value[k], value_cls
+                        )
 
                 if value or include_default_values:
                     output[cased_name] = output_map
@@ -1672,9 +1713,19 @@ class Message(ABC):
                         if isinstance(value, list)
                         else sub_cls.from_dict(value)
                     )
-            elif meta.map_types and meta.map_types[1] == TYPE_MESSAGE:
+                else:
+                    value = _scalar_from_json(meta.wraps, value)
+            elif meta.map_types:
                 sub_cls = cls._betterproto.cls_by_field[f"{field_name}.value"]
-                value = {k: sub_cls.from_dict(v) for k, v in value.items()}
+                key_type, value_type = meta.map_types
+                value = {
+                    _scalar_from_json(key_type, k): (
+                        sub_cls.from_dict(v)
+                        if value_type == TYPE_MESSAGE
+                        else _scalar_from_json(value_type, v, sub_cls)
+                    )
+                    for k, v in value.items()
+                }
             else:
                 if meta.proto_type in INT_64_TYPES:
                     value = (
